@@ -35,10 +35,11 @@ type C04Case struct {
 	Channel    bool       `json:"channel"`           // run through a real channel + read loop
 	Consume    string     `json:"consume,omitempty"` // how the consumer reads a message: "" readall | copy | tobytes
 	Hold       bool       `json:"hold,omitempty"`    // the next outbound handler keeps every emitted message and serialises them only after the last encode
+	Zero       int        `json:"zero,omitempty"`    // every Zero-th transport read returns (0, nil)
 	Arena      bool       `json:"arena,omitempty"`   // the caller keeps all payloads back to back in one buffer and hands sub-slices (with spare capacity) to the encoder
 }
 
-var c04Carriers = []string{"bytes", "string", "buffer", "breader", "sreader", "bb", "reader", "short"}
+var c04Carriers = []string{"bytes", "string", "buffer", "breader", "sreader", "bb", "reader", "short", "breader-used", "sreader-used"}
 
 // payloadBytes builds a deterministic payload; for delimiter codecs it is made
 // admissible (first delimiter occurrence in payload+delimiter at len(payload)).
@@ -78,9 +79,17 @@ func payloadBytes(c wire.Codec, n, seed int) (p []byte, repaired bool) {
 type shortReader struct {
 	data []byte
 	step int
+	// empty: every fragment is preceded by one read that returns (0, nil) (allowed by io.Reader, never twice in a row)
+	empty     bool
+	lastEmpty bool
 }
 
 func (s *shortReader) Read(p []byte) (int, error) {
+	if s.empty && !s.lastEmpty && len(p) > 0 {
+		s.lastEmpty = true
+		return 0, nil
+	}
+	s.lastEmpty = false
 	if len(s.data) == 0 {
 		return 0, io.EOF
 	}
@@ -110,6 +119,21 @@ func carrierOf(kind string, p []byte, seed int) interface{} {
 		return bytes.NewReader(append([]byte{}, p...))
 	case "sreader":
 		return strings.NewReader(string(p))
+	case "breader-used", "sreader-used":
+		// a reader the application has already read a tag from: the message is what is left unread
+		tag := []byte("tag:")[:1+seed%4]
+		all := append(append([]byte{}, tag...), p...)
+		var r interface {
+			io.Reader
+			Len() int
+		}
+		if kind == "breader-used" {
+			r = bytes.NewReader(all)
+		} else {
+			r = strings.NewReader(string(all))
+		}
+		_, _ = io.ReadFull(r, make([]byte, len(tag)))
+		return r
 	case "bb":
 		k := 0
 		if len(p) > 0 {
@@ -292,6 +316,7 @@ func genC04(t *rapid.T) C04Case {
 	c.Consume = rapid.SampledFrom([]string{"", "", "copy", "tobytes"}).Draw(t, "consume")
 	c.Hold = rapid.IntRange(0, 3).Draw(t, "hold") == 0
 	c.Arena = rapid.IntRange(0, 3).Draw(t, "arena") == 0
+	c.Zero = rapid.SampledFrom([]int{0, 0, 0, 2, 3, 7}).Draw(t, "zero")
 	return c
 }
 
@@ -491,7 +516,10 @@ func runC04(c C04Case) (out core.Outcome) {
 		return runC04Channel(c, cd, stream, ends, want, cls)
 	}
 
-	fr := &wire.Fragmenter{Data: stream, Cuts: c.Cuts, End: c.End}
+	fr := &wire.Fragmenter{Data: stream, Cuts: c.Cuts, End: c.End, Zero: c.Zero}
+	if c.Zero > 0 {
+		cls.Add("empty-reads")
+	}
 	cutInside := false
 	{
 		pos, fi := 0, 0
